@@ -186,9 +186,13 @@ def norm_cmp(op, ea, eb):
         op = {'<': '>', '>': '<', '<=': '>=', '>=': '<='}[op]
     if kb is not None:
         if op == '>':
-            return E('>=', (ea, E('const', val=kb + 1)), w=1)
-        if op == '<=':
-            return E('<', (ea, E('const', val=kb + 1)), w=1)
+            op, kb, eb = '>=', kb + 1, E('const', val=kb + 1)
+        elif op == '<=':
+            op, kb, eb = '<', kb + 1, E('const', val=kb + 1)
+        unsigned = isinstance(ea, E) and not (ea.op == 'sig' and getattr(ea.args[0], 'signed', False)) and ea.op in ('sig', 'slice')
+        if kb == 1 and unsigned and isinstance(ea.w, int) and ea.w > 1:
+            # for an unsigned value `x >= 1` / `x > 0` is `x != 0` and `x < 1` / `x <= 0` is `x == 0`: one form
+            return E('!=' if op == '>=' else '==', (E('const', val=0), ea), w=1)
         return E(op, (ea, eb), w=1)
     # x > (e - 1)  ==  x >= e ;  x <= (e - 1) == x < e
     if isinstance(eb, E) and eb.op == '-' and len(eb.args) == 2 and const(eb.args[1]) == 1 and op in ('>', '<='):
@@ -417,6 +421,10 @@ def slice_of(e, lo, hi):
             return E('cat', parts, w=hi - lo)
     if e.w is not None and lo == 0 and hi == e.w:
         return e
+    if e.op in ('~', '&', '|', '^') and isinstance(e.w, int) and hi <= e.w and e.args and \
+            all(isinstance(a, E) and a.w == e.w for a in e.args):
+        # bitwise operators act bit by bit: (~x)[lo:hi] is ~(x[lo:hi]) when every operand has the full width
+        return E(e.op, tuple(slice_of(a, lo, hi) for a in e.args), w=hi - lo)
     return E('slice', (e, lo, hi), w=hi - lo)
 
 
